@@ -233,6 +233,112 @@ def batch_adversarial(ctx):
     ctx.note_batch("adversarial-naming", len(meta), dis, exhaustive=False, first_pass_programs=n)
 
 
+class _NameTagger:
+    """attaches Named / PrefixNamed (+ImplStored) tags with names drawn from a collision-prone pool;
+    its own random source, so that the program structure does not depend on it"""
+    def __init__(self, seed, pool):
+        self.rng = random.Random(seed)
+        self.pool = pool
+        self.used_named: set[str] = set()
+        self.prefixes: set[str] = set()
+        self.named: set[str] = set()
+
+    def __call__(self, node, ordinal, op):
+        from pytato.tags import ImplStored, Named, PrefixNamed
+        from pytato.array import DataWrapper, InputArgumentBase
+        r = self.rng
+        if isinstance(node, DataWrapper):
+            if r.random() < 0.7:
+                nm = r.choice(self.pool)
+                if r.random() < 0.25 and nm not in self.used_named:
+                    self.used_named.add(nm)
+                    self.named.add(nm)
+                    return node.tagged(Named(nm))
+                self.prefixes.add(nm)
+                return node.tagged(PrefixNamed(nm))
+            return node
+        if isinstance(node, InputArgumentBase):
+            return node
+        if r.random() < 0.3:
+            # re-use names already handed out (a Named name requested again as a prefix, and the other way round)
+            taken = sorted(self.named | self.prefixes)
+            nm = r.choice(taken) if taken and r.random() < 0.5 else r.choice(self.pool)
+            if r.random() < 0.4 and nm not in self.used_named:
+                self.used_named.add(nm)
+                self.named.add(nm)
+                return node.tagged((Named(nm), ImplStored()))
+            self.prefixes.add(nm)
+            return node.tagged((PrefixNamed(nm), ImplStored()))
+        return node
+
+
+def batch_adversarial_tags(ctx):
+    """user-chosen names on wrapped data and on stored temporaries (Named / PrefixNamed) that collide with each
+    other, with input/output names and with the names code generation derives from them (T_dim<d>, T_<k>, …)"""
+    n = 400 if ctx.thorough else 90
+    rng = random.Random(ctx.seed * 47 + 153)
+    nprng = np.random.default_rng(ctx.seed + 154)
+    bases = ["mass", "acc", "t", "q", "rowsum", "out"]
+    jobs, meta = [], []
+    for i in range(n):
+        b = rng.sample(bases, 2)
+        pool = []
+        for x in b:
+            pool += [x, x, f"{x}_dim0", f"{x}_dim1", f"{x}_0", f"{x}_1", f"{x}_store", f"acc_{x}", f"{x}_dim0_0"]
+        names = pool[:]
+        rng.shuffle(names)
+        names = list(dict.fromkeys(names))
+        p0 = programs.generate(ctx.seed + 1560, i)
+        nin, nout = len(p0.inputs), len(p0.outputs)
+        if len(names) < nin + nout:
+            continue
+        in_names, out_names = names[:nin], names[nin:nin + nout]
+        tagger = _NameTagger(ctx.seed * 1009 + i, pool)
+        cfg = programs.Config(input_namer=lambda k, a=in_names: a[k], output_namer=lambda k, a=out_names: a[k])
+        try:
+            p2 = programs.generate(ctx.seed + 1560, i, cfg, tagger)
+        except Exception as e:   # noqa: BLE001
+            ctx.broken.append(f"generator:tagging:{type(e).__name__}:{str(e)[:80]}")
+            continue
+        if len(p2.outputs) != nout or len(p2.inputs) != nin:
+            continue
+        runs = [p2.make_inputs(nprng)]
+        jobs.append(cexec.Job(tag=f"tag{i}", expr=p2.expr(), runs=runs, prep=_prep_dedup, kir_orders=0, post=_post))
+        meta.append((p2, runs, in_names, out_names, tagger))
+    res = cexec.run_jobs(ctx, jobs)
+    dis = rejected = 0
+    stats = {"with_named": 0, "with_prefix": 0, "explicit_rejections": 0}
+    for (p2, runs, in_names, out_names, tg), r in zip(meta, res):
+        stats["with_named"] += bool(tg.named)
+        stats["with_prefix"] += bool(tg.prefixes)
+        if r.error and not str(r.stage).startswith("c-"):
+            if tg.named and r.error_class == "ValueError":
+                stats["explicit_rejections"] += 1   # "a Named tag yields exactly that name or an error"
+                continue
+            dis += 1
+            from .c01 import _short
+            ctx.violation(f"names:codegen-fails-under-name-tags:{r.error_class}:{_short(r.error)}",
+                          f"program {p2.index}: {r.stage} fails with inputs {in_names}, outputs {out_names}, "
+                          f"Named {sorted(tg.named)}, PrefixNamed {sorted(tg.prefixes)}: {r.error[:300]}",
+                          {"program_index": p2.index, "seed": ctx.seed, "inputs": in_names, "outputs": out_names,
+                           "named": sorted(tg.named), "prefixes": sorted(tg.prefixes), "error": r.error})
+            continue
+        # UniqueNameGenerator continues a trailing counter: the prefix "t_0" may yield "t_1"
+        dis += check_names(ctx, p2, r, _reachable_inputs(p2), set(p2.outputs),
+                           allowed_prefixes=tuple({re.sub(r"_[0-9]+$", "", x) for x in tg.prefixes | tg.named}))
+        nmz = (r.kir or {}).get("names", {})
+        space = set(nmz.get("args", []) + nmz.get("temps", []))
+        # a Named tag that was accepted must have produced exactly that name (if the node survived as an object)
+        if not r.error:
+            dis += compare_outputs(ctx, "names", p2, runs, r, extra={"inputs_named": in_names, "outputs_named": out_names,
+                                                                    "named": sorted(tg.named),
+                                                                    "prefixes": sorted(tg.prefixes)})
+        if p2.index % 25 == 0:
+            ctx.sample({"batch": "adversarial-name-tags", "program": p2.index, "inputs": in_names, "outputs": out_names,
+                        "named": sorted(tg.named), "prefixes": sorted(tg.prefixes)})
+    ctx.note_batch("adversarial-name-tags", len(meta), dis, exhaustive=False, **stats)
+
+
 def batch_scenarios(ctx):
     """hand-picked naming scenarios of the statement, each over a few shapes"""
     import pytato as pt
@@ -279,6 +385,32 @@ def batch_scenarios(ctx):
             {"o": pt.make_data_wrapper(data, tags=frozenset({PrefixNamed("x")})) + x}),
         "dw-named-equals-input": pt.make_dict_of_named_arrays(
             {"o": pt.make_data_wrapper(data, tags=frozenset({Named("x")})) + x}),
+        # one name requested twice through different tags / for different kinds of object
+        "named-then-prefix-same-name": pt.make_dict_of_named_arrays(
+            {"o": (lambda p: p + (2 * p).tagged((PrefixNamed("tmp"), ImplStored())))(
+                (x + 1).tagged((Named("tmp"), ImplStored())))}),
+        "prefix-twice-same-name": pt.make_dict_of_named_arrays(
+            {"o": (lambda p: p + (2 * p).tagged((PrefixNamed("tmp"), ImplStored())))(
+                (x + 1).tagged((PrefixNamed("tmp"), ImplStored())))}),
+        "prefix-then-named-same-name": pt.make_dict_of_named_arrays(
+            {"o": (lambda p: p + (2 * p).tagged((Named("tmp"), ImplStored())))(
+                (x + 1).tagged((PrefixNamed("tmp"), ImplStored())))}),
+        "named-temp-equals-output-key": pt.make_dict_of_named_arrays(
+            {"o": (x + 1).tagged((Named("p"), ImplStored())) * 2, "p": y + 1}),
+        "dw-prefix-equals-temp-prefix": pt.make_dict_of_named_arrays(
+            {"o": pt.make_data_wrapper(data, tags=frozenset({PrefixNamed("mass")}))
+             + (x + 1).tagged((PrefixNamed("mass"), ImplStored())) * y}),
+        "dw-prefix-equals-temp-named": pt.make_dict_of_named_arrays(
+            {"o": pt.make_data_wrapper(data, tags=frozenset({PrefixNamed("mass")}))
+             + (x + 1).tagged((Named("mass"), ImplStored())) * y}),
+        "dw-prefix-equals-derived-iname": pt.make_dict_of_named_arrays(
+            {"out": pt.make_data_wrapper(data, tags=frozenset({PrefixNamed("out_dim0")})) + x}),
+        "input-named-like-temp-iname": pt.make_dict_of_named_arrays(
+            {"o": (pt.make_placeholder("acc_dim0", (4,), np.float64) + 1).tagged((Named("acc"), ImplStored())) * 2}),
+        "output-named-like-temp-iname": pt.make_dict_of_named_arrays(
+            {"t_dim0": (x + 1).tagged((Named("t"), ImplStored())) * 2}),
+        "reduction-prefix-and-input-like-iname": pt.make_dict_of_named_arrays(
+            {"o": pt.sum(pt.make_placeholder("rowsum_dim0", (4, 3), np.float64), axis=1).tagged(PrefixNamed("rowsum")) + x}),
         "two-unnamed-dws": pt.make_dict_of_named_arrays(
             {"o": pt.make_data_wrapper(data) + pt.make_data_wrapper(data * 2) + x}),
         "same-array-two-keys": pt.make_dict_of_named_arrays({"o": x + y, "p": x + y}),
@@ -289,7 +421,8 @@ def batch_scenarios(ctx):
             {"o": (pt.make_placeholder("_pt_temp", (4,), np.float64) + 1).tagged(ImplStored()) * 2}),
     }
     inputs = {"x": np.arange(4.0), "y": np.arange(4.0) * 3, "_pt_data": np.arange(4.0) + 7,
-              "_pt_temp": np.arange(4.0) - 2}
+              "_pt_temp": np.arange(4.0) - 2, "acc_dim0": np.arange(4.0) * 5 + 1,
+              "rowsum_dim0": np.arange(12.0).reshape(4, 3)}
     for nm, expr in scen.items():
         from ..reflect import walk
         from pytato.array import Placeholder
@@ -302,7 +435,8 @@ def batch_scenarios(ctx):
     for (nm, expr, run), r in zip(meta, res):
         cases += 1
         if r.error and not str(r.stage).startswith("c-"):
-            if nm in ("dw-named-equals-input",) and r.error_class == "ValueError":
+            if nm in ("dw-named-equals-input", "prefix-then-named-same-name", "named-then-prefix-same-name",
+                      "named-temp-equals-output-key", "dw-prefix-equals-temp-named") and r.error_class == "ValueError":
                 continue        # "a Named tag yields exactly that name or an error"
             if nm.startswith("reserved-input-name") and r.stage in ("generate", "prep"):
                 continue        # rejected: allowed
@@ -347,6 +481,7 @@ def run(ctx: common.Ctx):
     ctx.lean_obligations("PtProofs.C15", THEOREMS)
     batch_namegen(ctx)
     batch_adversarial(ctx)
+    batch_adversarial_tags(ctx)
     batch_scenarios(ctx)
     ctx.broken = sorted(set(ctx.broken))[:50]
 
